@@ -382,7 +382,7 @@ def run(ctx):
     for allexp, tag in ((exports, "all"), (sim, "sim")):
         for (cfg, sc, d), hs in sorted(allexp.items()):
             for t in by_cfg.get(cfg, []):
-                full = thorough or t == primary[cfg] or t[1] == "twocoro"
+                full = thorough or t == primary[cfg] or t[1] == "twocoro" or bool(os.environ.get("C08_FULL"))
                 sel = hs if full else rng.sample(hs, min(len(hs), max(200, len(hs) // 20)))
                 js, m, jid = make_jobs(ctx, t, sel, paths, jid, rng)
                 (jobs_two if t[1] == "twocoro" else jobs_std).extend(js)
@@ -404,21 +404,25 @@ def run(ctx):
         raise ToolingError("driver skipped jobs: %s" % skipped[:3])
     ctx.log("driver runs done: %d jobs, %d calls" % (len(ev), ncalls))
 
-    # ---- TLC validates: one tree per object, in parallel
+    # ---- TLC validates: the jobs of all objects merged into a few prefix trees (balanced), walked in parallel
     groups = {}
     for jid_, evs in sorted(ev.items()):
         t = meta[jid_][0]
         groups.setdefault((t[0], t[2]), []).append((jid_, evs))
+    nruns = 3 if len(ev) > 30000 else 1
+    bins = [[] for _ in range(nruns)]
+    for key, je in sorted(groups.items(), key=lambda kv: -len(kv[1])):
+        min(bins, key=lambda b: sum(len(x[1]) for x in b)).append((key, je))
     results = {}
 
-    def val_one(item):
-        (dec, stem), je = item
+    def val_one(bi):
+        je = [x for key, part in bins[bi] for x in part]
         tree, owner = build_tree(je)
-        visited, rej = survey(ctx, tree, "%s/%s" % (dec, stem), workers=4)
-        return (dec, stem), tree, owner, visited, rej
-    with cf.ThreadPoolExecutor(max_workers=4) as ex:
-        for key, tree, owner, visited, rej in ex.map(val_one, sorted(groups.items())):
-            results[key] = (tree, owner, visited, rej)
+        visited, rej = survey(ctx, tree, "tree %d (%s)" % (bi, ",".join(sorted(set(k[0] for k, _ in bins[bi])))), workers=max(4, NCPU // nruns))
+        return bi, tree, owner, visited, rej
+    with cf.ThreadPoolExecutor(max_workers=nruns) as ex:
+        for bi, tree, owner, visited, rej in ex.map(val_one, [i for i in range(nruns) if bins[i]]):
+            results[bi] = (tree, owner, visited, rej)
     total_nodes = sum(len(r[0]["nodes"]) for r in results.values())
     total_visited = sum(r[2] for r in results.values())
     total_rej = sum(len(r[3]) for r in results.values())
@@ -426,18 +430,20 @@ def run(ctx):
     for key, (tree, owner, visited, rej) in results.items():
         hidden = sum(subtree_size(tree, nid) - 1 for nid, _ in rej)
         if visited + hidden != len(tree["nodes"]):
-            raise ToolingError("trace tree of %s not fully walked: %d visited + %d below rejections != %d nodes" % (
+            raise ToolingError("trace tree %s not fully walked: %d visited + %d below rejections != %d nodes" % (
                 key, visited, hidden, len(tree["nodes"])))
     report(ctx, results, ev, meta)
 
     # ---- evidence
     samples = []
-    for key, (tree, owner, visited, rej) in sorted(results.items())[:: max(1, len(results) // 6)][:6]:
-        nid = len(tree["nodes"]) // 2 + 1
-        p = path_to(tree, nid)
-        samples.append({"object": "%s/%s" % key,
-                        "history": [step_str(tree["nodes"][k - 1]["ev"]) + " => " + repr(tree["nodes"][k - 1]["ev"].get("st"))
-                                    for k in p if tree["nodes"][k - 1]["ev"].get("k") == "call"]})
+    for key, (tree, owner, visited, rej) in sorted(results.items()):
+        for nid in (len(tree["nodes"]) // 5 + 1, len(tree["nodes"]) // 2 + 1, len(tree["nodes"])):
+            p = path_to(tree, nid)
+            t = meta[owner[nid][0]][0]
+            samples.append({"object": "%s/%s" % (t[0], t[2]),
+                            "history": [step_str(tree["nodes"][k - 1]["ev"]) + " => " + repr(tree["nodes"][k - 1]["ev"].get("st"))
+                                        for k in p if tree["nodes"][k - 1]["ev"].get("k") == "call"]})
+    samples = samples[:8]
     replies = {}
     for key, (tree, owner, visited, rej) in results.items():
         for nd in tree["nodes"]:
@@ -461,7 +467,7 @@ def run(ctx):
         "trace_tree_nodes_validated_by_tlc": total_nodes,
         "rejected_nodes": total_rej,
         "distinct_replies_observed": dict(sorted(replies.items(), key=lambda kv: -kv[1])[:24]),
-        "objects": sorted(set("%s/%s" % k for k in results)),
+        "objects": sorted("%s/%s" % k for k in groups),
         "wall_s_total": round(time.time() - t0, 1),
     }, assumptions=[
         "one valid input (and one damaged copy) per object; the abstract outcome 'error' is realised by a damaged first bytes / a closed truncated source",
@@ -471,46 +477,57 @@ def run(ctx):
     ])
 
 
+def sig_key(target, e, clauses):
+    """Identifies a failing call by object, input, call, violated clauses and observed status (no white space: it is
+    the key of a `known:` line).  When a contract clause is violated the accompanying reply mismatch is not part of
+    the key (the same call is seen from model states with different expectations)."""
+    cl = [c for c in clauses if not c.startswith("Reply_expected_")] or clauses
+    k = "%s/%s:%s:%s:%s:%s:got=%s" % (target[0], target[2], e.get("op"), e.get("m"), e.get("a"), "+".join(sorted(cl)), e.get("st") or "ok")
+    return k.replace(" ", "_")
+
+
 def report(ctx, results, ev, meta, cap=6):
     """Group the rejected nodes by signature, report the shallowest history of each (confirmed by a TLC run whose
     invariant Accepted is violated)."""
     sigs = {}
-    for key, (tree, owner, visited, rej) in results.items():
+    for bi, (tree, owner, visited, rej) in results.items():
         for nid, clauses in rej:
+            p = path_to(tree, nid)
             e = tree["nodes"][nid - 1]["ev"]
-            depth = len(path_to(tree, nid))
-            sig = (key[0], e.get("k"), e.get("op"), e.get("m"), e.get("a"), tuple(sorted(clauses)), e.get("st"))
+            target = meta[owner[nid][0]][0]
+            sig = sig_key(target, e, clauses)
             cur = sigs.get(sig)
-            if cur is None or depth < cur[0]:
-                sigs[sig] = (depth, key, nid, clauses, (cur[4] + 1) if cur else 1)
+            if cur is None or len(p) < cur[0]:
+                sigs[sig] = (len(p), bi, nid, clauses, (cur[4] + 1) if cur else 1)
             else:
                 sigs[sig] = cur[:4] + (cur[4] + 1,)
     if not sigs:
         return
-    order = sorted(sigs.items(), key=lambda kv: (kv[1][0], kv[0]))
-    ctx.log("%d rejection signatures; reporting the %d shallowest" % (len(order), min(cap, len(order))))
-    for sig, (depth, key, nid, clauses, count) in order[:cap]:
-        tree, owner = results[key][0], results[key][1]
+    known = ctx.known_keys()
+    order = sorted(sigs.items(), key=lambda kv: (kv[0] in known, kv[1][0], kv[0]))
+    new = [x for x in order if x[0] not in known]
+    ctx.log("%d rejection signatures (%d not in KNOWN_FINDINGS.txt); reporting the %d shallowest" % (len(order), len(new), min(cap, len(new))))
+    for sig, (depth, bi, nid, clauses, count) in new[:cap] + [x for x in order if x[0] in known]:
+        tree, owner = results[bi][0], results[bi][1]
         p = path_to(tree, nid)
         events = [tree["nodes"][k - 1]["ev"] for k in p]
         jid, _ = owner[nid]
         target, h = meta[jid]
-        conf = confirm(ctx, events, "%s/%s node %d" % (key[0], key[1], nid))
+        conf = confirm(ctx, events, "%s/%s node %d" % (target[0], target[2], nid))
         if conf is None:
-            raise ToolingError("survey rejected node %d of %s but the confirmation run accepted its history" % (nid, key))
+            raise ToolingError("survey rejected node %d of tree %d but the confirmation run accepted its history" % (nid, bi))
         calls = [e for e in events if e.get("k") == "call"]
         hist_txt = ["%s => %r" % (step_str(e), e.get("st")) for e in calls]
         exp = h["exp"][len(calls) - 1] if 0 < len(calls) <= len(h["exp"]) else None
         what = ("%s (%s): trace line %d rejected by Trace_Proto.tla, clauses %s; %d recorded histories share this signature\n"
-                "  history on a %s object: %s\n  expected reply patterns of the last step per WuffsObject.tla export: %s" % (
-                    key[0], key[1], conf["line"], conf["clauses"], count,
+                "  history on a %s object: %s\n  replies the exported history expects for the last step (union over the model's branches): %s" % (
+                    target[0], target[2], conf["line"], conf["clauses"], count,
                     "freshly initialised" if events[0].get("start") else "raw (%s memory)" % events[0].get("mem"),
                     "; ".join(hist_txt), exp))
-        hk = history_key(target, events, len(calls))
         job = dict(id=1, dec=target[0], nf=target[3], hm=1 if target[4] else 0, via=calls[-1].get("via", "direct") if calls else "direct",
                    mem=events[0].get("mem"), start=1 if events[0].get("start") else 0, stem=target[2],
                    steps=",".join(step_str(e) for e in calls))
-        ctx.violation(what, {"key": hk, "object": key[0], "input": key[1], "clauses": conf["clauses"], "job": job, "events": events,
+        ctx.violation(what, {"key": sig, "object": target[0], "input": target[2], "clauses": conf["clauses"], "job": job, "events": events,
                              "histories_with_signature": count})
 
 
